@@ -3,7 +3,7 @@ def _sig(case, impl, pred):
     return p.split(":")[0]
 
 CONFIG = {
-    "modules": ["GoPlugin.Props.C07", "GoPlugin.Props.IdAlloc", "GoPlugin.Instance.C07"],
+    "modules": ["GoPlugin.Props.C07", "GoPlugin.Props.IdAlloc", "GoPlugin.Props.Hygiene", "GoPlugin.Instance.C07"],
     "scenario": "C07",
     "signature": _sig,
     "trivial": lambda impl: False,
